@@ -5,6 +5,7 @@ from sa.forward import Forward
 from sa.dataflow import Poly, cmp_key, cmp_atoms
 from sa.resolve import walk_function
 
+TECHNIQUE = 'static analysis (ast): CFG dominance / post-dominance and acyclic path-count rules for filing, dispatch and the step pointer; comparator normal forms (bisect side, latency split, history bounds); who-may-call / who-may-write rules over the resolved call graph and effect summaries'
 EXPLANATION = (
     "Decides the structural clauses of C04: (S1) in Transmitter._create_partitions the partition key is timesteps[bisect_left(timesteps, event.time)] "
     "(unmodified), over timesteps = sorted(set(...)); (S2) each loop iteration appends the event to at most one partition and skips it only through "
